@@ -53,7 +53,7 @@ def main():
             continue
         sid = "%s-%s" % (pid, letter)
         if recheck:
-            first = json.load(open(out[:-3]))
+            first = json.load(open(out.replace(".re.json", ".json")))
             merged = dict(first)
             merged["checks"] = {"%s (before strengthening)" % k: v for k, v in first["checks"].items() if not v["detected"]}
             merged["checks"].update({k: v for k, v in first["checks"].items() if v["detected"]})
